@@ -76,7 +76,7 @@ func TestC05(t *testing.T) {
 		ID: "C05",
 		Cfg: core.SimConfig{
 			Prop:            "C05",
-			Owned:           core.Own(core.CatRelation, core.CatPanicRelation, core.CatDeadTarget),
+			Owned:           core.Own(core.CatRelation, core.CatPanicRelation, core.CatDeadTarget, core.CatCorrupt),
 			Verify:          core.FullVerify,
 			CheckRelQueries: true,
 
@@ -90,7 +90,7 @@ func TestC05(t *testing.T) {
 		Mix:      c05Mix(),
 		MaxPlain: 4, MinRel: 1, MaxRel: 3,
 		Setup: func(rt *rapid.T, sim *core.Sim, g *core.Gen) {
-			g.Illegal = []string{core.IllDeadTarget, core.IllDeadTarget, core.IllSecondRel}
+			g.Illegal = []string{core.IllDeadTarget, core.IllDeadTarget, core.IllSecondRel, core.IllRelMissing, core.IllNoBuilderRel, core.IllRelNotRel}
 			g.IllegalPct = 12
 			g.TargetRemovalPct = 30
 		},
